@@ -18,10 +18,14 @@ class Meter:
     def __init__(self):
         import prettyprinter
         self.pkg = os.path.dirname(os.path.realpath(prettyprinter.__file__)) + os.sep
+        self.harness = os.path.dirname(os.path.realpath(__file__)) + os.sep
         self.count = 0
         self.cap = None
         self.active = False
         self.on = False
+        self.all_code = False
+        self.count_all = 0
+        self.cap_all = 0
         self._known = {}
 
     def _line(self, code, lineno):
@@ -30,24 +34,36 @@ class Meter:
             fn = code.co_filename
             k = self._known[code] = os.path.realpath(fn).startswith(self.pkg) if fn and not fn.startswith('<') else False
         if not k:
+            if self.all_code and self.on and not code.co_filename.startswith(self.harness):
+                # fallback mode of guarded(): lines of ANY code count (e.g. traceback formatting triggered by the package)
+                self.count_all += 1
+                if self.count_all > self.cap_all:
+                    # keeps raising on every further line: a bare `except:` (traceback.py has some) may swallow one
+                    raise StepBudgetExceeded(self.count_all)
+                return None
             return _mon.DISABLE
         if not self.on:
             return None
         self.count += 1
         if self.cap is not None and self.count > self.cap:
-            self.cap = None
-            self.on = False
             raise StepBudgetExceeded(self.count)
 
     def start(self, cap=None):
         self.count = 0
         self.cap = cap
+        # lines of foreign code run on behalf of the package (stdlib traceback formatting, re, functools ...) are
+        # bounded too, generously: an unbounded loop outside the package must not hang a metered call either
+        self.all_code = cap is not None
+        self.count_all = 0
+        self.cap_all = 25 * cap + 10 ** 6 if cap is not None else 0
         if not self.active:
             _mon.use_tool_id(TOOL, 'ppv-steps')
             _mon.register_callback(TOOL, _mon.events.LINE, self._line)
             self.active = True
         # Note: set_events re-instruments all code (~3 ms); while events are on every package
         # line costs a callback (~1.5 us), so they are switched off again in stop().
+        if self.all_code:
+            _mon.restart_events()       # re-enable locations that an uncapped run has DISABLEd
         _mon.set_events(TOOL, _mon.events.LINE)
         self.on = True
 
@@ -56,6 +72,7 @@ class Meter:
             _mon.set_events(TOOL, 0)
         self.on = False
         self.cap = None
+        self.all_code = False
         return self.count
 
     def close(self):
@@ -87,3 +104,34 @@ def measure(fn, cap=None):
         return m.stop(), None, True
     finally:
         m.stop()
+
+
+class _Stalled(BaseException):
+    pass
+
+
+def guarded(fn, cap, cpu_seconds=5.0):
+    """Run fn() at full speed under a CPU-time alarm.  If the alarm fires the call is abandoned and REPEATED under the
+    step meter with `cap`: the verdict (exceeded or not) is always decided by executed package lines, never by time;
+    the alarm only keeps an unmetered runaway call from hanging the check.  -> (result or None, exceeded)
+    Main thread only (signal)."""
+    import signal
+
+    def on_alarm(signum, frame):
+        raise _Stalled()
+    old = signal.signal(signal.SIGVTALRM, on_alarm)
+    # periodic: the exception is raised again every 0.25 s of CPU until it lands outside a bare `except:`
+    signal.setitimer(signal.ITIMER_VIRTUAL, cpu_seconds, 0.25)
+    try:
+        try:
+            res = fn()
+        finally:
+            signal.setitimer(signal.ITIMER_VIRTUAL, 0)
+        return res, False
+    except _Stalled:
+        pass
+    finally:
+        signal.setitimer(signal.ITIMER_VIRTUAL, 0)
+        signal.signal(signal.SIGVTALRM, old)
+    n, res, exceeded = measure(fn, cap=cap)
+    return res, exceeded
